@@ -166,6 +166,20 @@ def hi(I):
     return mp.make_mpf(I._mpi_[1])
 
 
+def iv_int_pow(I, n):
+    """I ** n for an integer n >= 1, real for every interval (negative and zero-spanning bases included)."""
+    a, b = lo(I), hi(I)
+    if a >= 0:
+        return iv.exp(iv.log(I) * n) if a > 0 and n > 64 else I ** n
+    if b <= 0:
+        J = -I
+        R = iv.exp(iv.log(J) * n) if b < 0 and n > 64 else J ** n
+        return R if n % 2 == 0 else -R
+    m = iv.mpf(max(-a, b))
+    top = m ** n if n <= 64 else iv.exp(iv.log(m) * n)
+    return iv.mpf([0, hi(top)]) if n % 2 == 0 else iv.mpf([-hi(top), hi(top)])
+
+
 def mag_hi(I):
     return max(abs(lo(I)), abs(hi(I)))
 
@@ -435,7 +449,7 @@ def _op_npow(t, kids, dy, f5, reals, have_reals, all_fx):
             return bad or R("ok", real=p, dy=dy and small_dyadic(p), fx=p)
     if n == 1:
         return _finish(a.enc(), real, dy, f5)
-    return _finish(widen(a.enc() ** n, 4), real, dy, f5)
+    return _finish(widen(iv_int_pow(a.enc(), n), 4), real, dy, f5)
 
 
 # ---- real n-th root (sign kept for odd n); strict domain: x != 0 for n >= 2, x > 0 for even n
@@ -921,14 +935,14 @@ def _ivp(t, env, v, memo):
         d = _ivp(t[1], env, v, memo)
         if n == 1:
             return d
-        return n * _enc(t[1], env, memo) ** (n - 1) * d
+        return n * iv_int_pow(_enc(t[1], env, memo), n - 1) * d
     if tag == "root":
         n = int(t[2])
         d = _ivp(t[1], env, v, memo)
         if n == 1:
             return d
         r = _enc(t, env, memo)
-        return d / (n * r ** (n - 1))
+        return d / (n * iv_int_pow(r, n - 1))
     if tag == "exp":
         is_e, b = _base_info(t[2])
         d = _ivp(t[1], env, v, memo)
